@@ -196,4 +196,21 @@ func init() {
 		},
 		TrustedBase: []string{stdTrusted},
 	})
+
+	reg(&PropertySpec{
+		ID: "C10", Level: "model_checking",
+		Rule: "one state = one feasible path of an entry point (CompileProfile, Validate, compile+ValidateCompiled, ValidateWithConfiguration) x profile text x stub outcomes, executed with every store checked against the set of locations reachable from package-level variables",
+		Harnesses: func(tier string) []HarnessSpec {
+			return []HarnessSpec{
+				{Pkg: "pkg", Fn: "VerifC10WriteSet", Native: "VerifC10WriteSetNative", Race: true, Reach: []string{"returned"}, Bounds: map[string]any{"entry_points": 4, "profiles": 3}},
+			}
+		},
+		Assumptions: []string{
+			"write-set argument: repository code starts no goroutines, so a data race between two concurrent calls needs a location both can reach, i.e. one reachable from a package-level variable (or from a shared argument: the compiled profile, covered by C09's frame condition); if no call ever stores to such a location without synchronisation, concurrent calls are race-free and cannot influence each other through repository state",
+			"sync/atomic operations and stores made while holding a sync.Mutex count as synchronised",
+			"OPA, json-gold, yaml.v3 and encoding/json are assumed safe for concurrent use as documented; interleavings inside them are outside",
+			"the generated-identifier counter is shared (atomically) between concurrent compilations: identifiers differ between runs but stay distinct within a module; reports do not contain them",
+		},
+		TrustedBase: []string{stdTrusted, "reachability snapshot of package-level state in gosym/rt.go"},
+	})
 }
